@@ -1,0 +1,26 @@
+//go:build verif
+
+package ecs
+
+// Contracts for the archetype statistics (C19): the in-place update reports, for every active
+// table and for the free-table count, exactly what the world holds now, whatever the reused
+// statistics object held before. The sums over tables (Size, Capacity, Memory) are not stated
+// here (they need an inductive sum specification); the per-table figures they are sums of are.
+
+//@ pred archStatsPre(a *archetype, storage *storage) :=
+//@      a.archetypeData != nil && storage != nil && uint64(len(a.tables.tables)) < 1<<31
+//@   && (forall p int :: 0 <= p && p < len(a.tables.tables) ==> int(a.tables.tables[p]) < len(storage.tables))
+//@   && (forall p int :: 0 <= p && p < len(a.freeTables) ==> int(a.freeTables[p]) < len(storage.tables))
+
+//@ func (*archetype).UpdateStats
+//@   serves C19
+//@   requires stats != nil && archStatsPre(a, storage) && uint64(len(stats.Tables)) < 1<<31
+//@   loop 1 invariant len: len(stats.Tables) == int(cntOld) && cntOld <= cntNew && int(cntNew) == len(a.tables.tables)
+//@   loop 1 invariant done: forall p int :: 0 <= p && p < __idx ==> stats.Tables[p].Size == int(storage.tables[a.tables.tables[p]].len) && stats.Tables[p].Capacity == int(storage.tables[a.tables.tables[p]].cap)
+//@   loop 2 invariant len: len(stats.Tables) == int(i) && cntOld <= i && i <= cntNew && int(cntNew) == len(a.tables.tables)
+//@   loop 2 invariant done: forall p int :: 0 <= p && p < int(i) ==> stats.Tables[p].Size == int(storage.tables[a.tables.tables[p]].len) && stats.Tables[p].Capacity == int(storage.tables[a.tables.tables[p]].cap)
+//@   loop 3 invariant len: len(stats.Tables) == len(a.tables.tables)
+//@   loop 3 invariant done: forall p int :: 0 <= p && p < len(a.tables.tables) ==> stats.Tables[p].Size == int(storage.tables[a.tables.tables[p]].len) && stats.Tables[p].Capacity == int(storage.tables[a.tables.tables[p]].cap)
+//@   ensures  free: stats.FreeTables == len(a.freeTables)
+//@   ensures  tables: len(stats.Tables) == len(a.tables.tables)
+//@   ensures  per-table: forall p int :: 0 <= p && p < len(a.tables.tables) ==> stats.Tables[p].Size == int(storage.tables[a.tables.tables[p]].len) && stats.Tables[p].Capacity == int(storage.tables[a.tables.tables[p]].cap)
